@@ -47,7 +47,7 @@ func wantSummary(fn *ssa.Function) bool {
 	if s, ok := summarisable[fn]; ok {
 		return s > 0
 	}
-	ok := SummariseFns[fn.String()] || (strings.HasPrefix(fn.Name(), "verifSum") && fn.Parent() == nil)
+	ok := (SummariseFns[fn.String()] && !summariseOff[fn.Name()]) || (strings.HasPrefix(fn.Name(), "verifSum") && fn.Parent() == nil)
 	if ok {
 		// result must be a single bool or integer
 		res := fn.Signature.Results()
@@ -219,4 +219,15 @@ func computeSummary(i *interpreter, caller *frame, fn *ssa.Function, args []valu
 		body = TIte(results[k].cond, results[k].val, body)
 	}
 	return &summary{formal: formal, body: body, kind: resKind}
+}
+
+var summariseOff = map[string]bool{}
+
+// SetSummarise switches summaries of the functions named name on or off.
+func SetSummarise(name string, on bool) {
+	if summariseOff[name] == !on {
+		return
+	}
+	summariseOff[name] = !on
+	summarisable = map[*ssa.Function]int8{}
 }
